@@ -160,6 +160,7 @@ def run(tier, seed):
                           'under 0-3 notation layers, instantiation with partial/total maps; each through BasicInterpreter and '
                           'StatefulInterpreter (and ProofExp.modus_ponens); distinct = distinct request')
     return R.finish(level='proof', trusted_base=C.TRUSTED_COMMON + [
+        'translators/pypattern.py (Python ast -> coq/Gen/PyPattern.v, fail closed; dynamic dispatch = generated recursive call)',
         'harness/impl/pat_runner.py + harness/pycodec.py (term codec), harness/pygen.py reference expansion / freshness (oracle only)',
         'the documented rules (docs/proof-language.md: ModusPonens, Generalization, Instantiate) as transcribed in the theorem statements'])
 
